@@ -84,6 +84,9 @@ type Ctx struct {
 	curInput atomic.Value
 }
 
+// maxClasses caps the class signatures one worker keeps in memory.
+const maxClasses = 60000
+
 // Thorough reports whether the thorough tier was requested.
 func (c *Ctx) Thorough() bool { return c.Tier == "thorough" }
 
@@ -140,6 +143,11 @@ func (c *Ctx) CountN(name string, n int) { c.res.Counters[name] += int64(n) }
 // when the class was not seen before in this worker.
 func (c *Ctx) Class(sig string) bool {
 	if _, ok := c.classes[sig]; ok {
+		return false
+	}
+	if len(c.classes) >= maxClasses {
+		// counted conservatively: further classes are not recorded (the evidence says so)
+		c.res.Counters["classes_not_recorded_after_cap"]++
 		return false
 	}
 	c.classes[sig] = struct{}{}
